@@ -45,7 +45,7 @@ PLANS['C07'] = dict(level='exploration',
     rule="random histories of 3..12 steps over a pool of 8 objects: parse, make-owner, normalise(mask), resolve, create-reference, comparisons, free, with borrow tracking; every produced or modified object is recomposed, re-read by the automaton+splitter and compared with what it holds; distinct = distinct (operation, produced text)",
     assumptions=A_MODELS)
 PLANS['C08'] = dict(level='exploration',
-    runs=[R('norm', 'fast', dict(random=300000), dict(random=12000000), dict(mask_required_zero=1000, mask_required_nonzero=10000)),
+    runs=[R('norm', 'fast', dict(random=300000), dict(random=8000000), dict(mask_required_zero=1000, mask_required_nonzero=10000)),
           R('norm', 'asan', dict(random=60000), dict(random=2400000))],
     rule="systematic: 8 prefixes x all segment lists over 6 segment kinds up to 4 segments; random: structured URIs (dot heavy, relative, percent-triplets in both cases, upper-cased); all 64 masks for a sample and 8 masks (incl. undefined high bits) otherwise; borrowed and owned; default and custom manager; idempotence; mask-required sufficiency; distinct = distinct (input, mask, ownership)",
     assumptions=A_MODELS)
@@ -87,8 +87,8 @@ PLANS['C14'] = dict(level='fault_enumeration',
     rule="for each (call, input): the fault-free run yields N allocation requests; then every k=1..N is failed, in fail-once and fail-from-k-on modes, on fresh identical inputs; calls: parse, add-base (both options), remove-base (both modes), normalise (random mask, borrowed/owned), make-owner, dissect-query, compose-query-malloc; custom manager and (fast build) the default allocator through the libc interposer; distinct = distinct (call, input, options)",
     assumptions=A_MODELS + A_MEM)
 PLANS['C15'] = dict(level='exploration',
-    runs=[R('alloc', 'asan', dict(sequences=40000), dict(sequences=6000000), dict(backend_failures_injected=10000, overflowing_products=5000, zero_size_reallocs=5000, failed_reallocs_old_block_intact=5000)),
-          R('alloc', 'fast', dict(sequences=40000), dict(sequences=6000000))],
+    runs=[R('alloc', 'asan', dict(sequences=40000), dict(sequences=1500000), dict(backend_failures_injected=10000, overflowing_products=5000, zero_size_reallocs=5000, failed_reallocs_old_block_intact=5000)),
+          R('alloc', 'fast', dict(sequences=40000), dict(sequences=3000000))],
     rule="random sequences (5..200 calls, <= 32 live blocks) of malloc/calloc/realloc/reallocarray/free on a manager completed from a malloc/free-only mock backend, sizes from {0,1,7,8,9,...,4097,65536, around 1 MiB, near SIZE_MAX}, backend failure injected at a random position; model: map of live blocks with byte patterns; backend log checked; distinct = distinct call traces",
     assumptions=A_MEM)
 PLANS['C16'] = dict(level='exploration',
